@@ -180,10 +180,16 @@ type Style struct {
 	Anchors  bool // repeated composite subtrees as &anchor / *alias (block style)
 	// PlainYAML11: spell YAML-1.1-only words (y, yes, on, ...) plain as well (known-finding sub-run)
 	PlainYAML11 bool
+	// PlainNumKeys: mapping keys that look like numbers, booleans, null or dates (200, 1e3, true,
+	// 2020-01-01) are written plain, as OpenAPI documents usually spell response codes; the key node
+	// then carries a non-string tag while its text is the member name
+	PlainNumKeys bool
 }
 
+var numLikeKey = regexp.MustCompile(`^([0-9][0-9A-Za-z_.+-]*|true|false|null|True|NULL)$`)
+
 func (st Style) String() string {
-	return fmt.Sprintf("%s/quote=%s/comments=%v/indent=%d/keyquote=%v/marker=%v/anchors=%v", st.Format, st.Quote, st.Comments, st.Indent, st.KeyQuote, st.Marker, st.Anchors)
+	return fmt.Sprintf("%s/quote=%s/comments=%v/indent=%d/keyquote=%v/marker=%v/anchors=%v/plainnumkeys=%v", st.Format, st.Quote, st.Comments, st.Indent, st.KeyQuote, st.Marker, st.Anchors, st.PlainNumKeys)
 }
 
 func (st Style) IsJSON() bool { return st.Format == "json" || st.Format == "jsonind" }
@@ -197,6 +203,9 @@ func (st Style) str(s string, isKey bool) string {
 	}
 	if isKey && st.KeyQuote {
 		q = "double"
+	}
+	if isKey && st.PlainNumKeys && !st.IsJSON() && numLikeKey.MatchString(s) {
+		return s
 	}
 	if q == "plain" && plainSafe.MatchString(s) {
 		lw := strings.ToLower(s)
@@ -540,6 +549,9 @@ func AllStyles() []Style {
 			}
 		}
 	}
+	// numeric-looking keys written plain
+	styles = append(styles, Style{Format: "block", Quote: "plain", Indent: 2, PlainNumKeys: true}, Style{Format: "block", Quote: "double", Indent: 4, Comments: true, PlainNumKeys: true},
+		Style{Format: "flow", Quote: "plain", PlainNumKeys: true}, Style{Format: "block", Quote: "single", Indent: 2, Anchors: true, PlainNumKeys: true})
 	// anchors/aliases for repeated subtrees
 	for _, q := range []string{"plain", "double"} {
 		for _, ind := range []int{2, 4} {
@@ -555,7 +567,7 @@ func FewStyles() []Style {
 		{Format: "json"}, {Format: "jsonind"},
 		{Format: "block", Quote: "plain", Indent: 2}, {Format: "block", Quote: "double", Indent: 4, Comments: true, KeyQuote: true, Marker: true},
 		{Format: "block", Quote: "single", Indent: 2, Comments: true}, {Format: "flow", Quote: "plain"}, {Format: "flow", Quote: "double", KeyQuote: true},
-		{Format: "block", Quote: "plain", Indent: 2, Anchors: true},
+		{Format: "block", Quote: "plain", Indent: 2, Anchors: true}, {Format: "block", Quote: "plain", Indent: 2, PlainNumKeys: true},
 	}
 }
 
